@@ -11,7 +11,10 @@ Local Open Scope nat_scope.
 
 Definition B0 : bigQ := BigQ.zero.
 Definition B1 : bigQ := BigQ.one.
-Definition Bstep := @step bigQ B0 B1 BigQ.add_norm BigQ.sub_norm BigQ.mul_norm BigQ.div_norm true.
+(* [rr]: which variant of the checkpoint reload the tree under test exhibits (true = exp_layer re-bound to the
+   restored network, i.e. fixes/C19-exp-layer-after-load.patch applied). The harness determines it from the
+   observation of the case; the property's oracle — not K — judges rr = false as a violation. *)
+Definition Bstep (rr : bool) := @step bigQ B0 B1 BigQ.add_norm BigQ.sub_norm BigQ.mul_norm BigQ.div_norm rr.
 Definition Binit := @init_params bigQ B0 B1 BigQ.div_norm.
 Definition Bgram_step := @gram_step bigQ BigQ.add_norm BigQ.mul_norm.
 Definition Bmatmul := @matmul bigQ B0 BigQ.add_norm BigQ.mul_norm.
@@ -92,28 +95,30 @@ Definition check_state (lam tol : bigQ) (s : @bstate bigQ) (c : option (list (li
       forallb (fun g => bq_le B0 (Bquad (sig s) (map BigQ.of_Q g))) (o_arms ob)
   end.
 
-Fixpoint check_trace (lam tol : bigQ) (s : @bstate bigQ) (c : option (list (list bigQ)))
+Fixpoint check_trace (rr : bool) (lam tol : bigQ) (s : @bstate bigQ) (c : option (list (list bigQ)))
          (ops : list (@op bigQ)) (obs : list obs1) : bool :=
   match ops, obs with
   | [], [] => true
   | o :: ops', ob :: obs' =>
-      let s' := Bstep s o in
+      let s' := Bstep rr s o in
       let c' := cert_step lam c o in
       check_state lam tol s' c' ob &&
       (match o with Act _ => check_bonus (BigQ.of_Q (1 # 1024)) (sig s) ob | _ => true end) &&
-      check_trace lam tol s' c' ops' obs'
+      check_trace rr lam tol s' c' ops' obs'
   | _, _ => false
   end.
 
 (* a whole history: construction (init_params) observed first, then one observation per op *)
-Definition check_hist (lamq tolq : Q) (ly : layer) (ob0 : obs1) (ops : list (@op Q)) (obs : list obs1) : bool :=
+Definition check_hist (rr : bool) (lamq tolq : Q) (ly : layer) (ob0 : obs1) (ops : list (@op Q)) (obs : list obs1) : bool :=
   let lam := BigQ.of_Q lamq in
   let tol := BigQ.of_Q tolq in
   let s0 := Binit lam ly in
   let c0 := Some (@scal_id bigQ B0 (layer_numel ly) lam) in
-  check_state lam tol s0 c0 ob0 && check_trace lam tol s0 c0 (map op_toB ops) obs.
+  check_state lam tol s0 c0 ob0 && check_trace rr lam tol s0 c0 (map op_toB ops) obs.
 
 (* unit level: Mutations._reinit_bandit_grads on an integer-tagged matrix, exact *)
-Definition check_resize (old new : layer) (dval : Q) (S M : list (list Q)) : bool :=
-  mat_eq (@reinit_bandit_grads bigQ B0 true old new (BigQ.of_Q dval) (toB S)) (toB M) &&
+(* [shifted]: which variant of the diagonal fill the tree exhibits (true = fixes/C19-resize-diagonal.patch);
+   the two variants differ only for growth by >= 2 parameters; the oracle judges shifted = false as a violation *)
+Definition check_resize (shifted : bool) (old new : layer) (dval : Q) (S M : list (list Q)) : bool :=
+  mat_eq (@reinit_bandit_grads bigQ B0 shifted old new (BigQ.of_Q dval) (toB S)) (toB M) &&
   has_dims (layer_numel new) (layer_numel new) M.
